@@ -41,7 +41,7 @@ NewObj(o) == [cfg |-> [S |-> o.S, M |-> o.mode, vars |-> SeqToSet(o.vars)],
               fed |-> [v \in SeqToSet(o.vars) |-> <<>>], emitted |-> <<>>, nupd |-> 0, mu |-> 0, last |-> <<>>, rets |-> <<>>, lastw |-> <<>>,
               dead |-> FALSE, gets |-> <<>>,
               \* binding to the operational model DenseOn!UpdateC: its memory, whether it applies, first update that differed
-              mem |-> <<>>, modelled |-> FALSE, drift |-> 0, compared |-> 0]
+              mem |-> <<>>, modelled |-> FALSE, drift |-> 0, compared |-> 0, mout |-> <<>>]
 InitMs(c) == [i \in 1..Len(c.objs) |-> NewObj(c.objs[i])]
 NoCase == [objs |-> <<>>, events |-> <<>>, rels |-> <<>>, tid |-> 0, skip |-> <<>>]
 CaseAt(i) == IF i <= NCases THEN Cases[i] ELSE NoCase
@@ -84,18 +84,25 @@ Mismatch(out, ex, d0, n, h, lo2, hi2) ==
 \* in force when it covers all its operators (standard semantics), and every update() is also given to it.
 \* A difference (returned batch, error path) is recorded as model drift - a diagnostic, not a verdict.
 Install(m) == IF m.cfg.M.sem = "standard" /\ OnlineCOK(m.inst)
-              THEN [m EXCEPT !.mem = InitMemC(m.inst), !.modelled = TRUE] ELSE [m EXCEPT !.mem = <<>>, !.modelled = FALSE]
+              THEN [m EXCEPT !.mem = InitMemC(m.inst), !.modelled = TRUE, !.mout = <<>>]
+              ELSE [m EXCEPT !.mem = <<>>, !.modelled = FALSE, !.mout = <<>>]
 Doubled(sl) == [i \in 1..Len(sl) |-> <<IF sl[i][1] >= PInf THEN PInf ELSE 2 * sl[i][1], sl[i][2]>>]
 HasUndefL(sl) == \E i \in 1..Len(sl) : sl[i][2] = Undef
 ModelStep(m, e) ==
-  IF ~m.modelled \/ m.drift # 0 THEN m
+  IF ~m.modelled THEN m
   ELSE
     LET batch == [v \in VarsOf(m.inst) |-> IF v \in DOMAIN e.w THEN e.w[v] ELSE <<>>]
-        r == UpdateC(m.inst, m.mem, batch, m.cfg.S, {}) IN
-    IF ~r.err /\ HasUndefL(r.ret) THEN [m EXCEPT !.modelled = FALSE]
-    ELSE IF r.err # (e.exc # NoExc) \/ (~r.err /\ Doubled(r.ret) # e.ret) THEN [m EXCEPT !.drift = m.nupd]
-    ELSE IF r.err THEN [m EXCEPT !.modelled = FALSE]
-    ELSE [m EXCEPT !.mem = r.M, !.compared = m.compared + 1]
+        r == UpdateC(m.inst, m.mem, batch, m.cfg.S, {})
+        differs == r.err # (e.exc # NoExc) \/ (~r.err /\ Doubled(r.ret) # e.ret) IN
+    IF r.err \/ HasUndefL(r.ret) THEN [m EXCEPT !.modelled = FALSE, !.drift = IF r.err /\ differs /\ m.drift = 0 THEN m.nupd ELSE m.drift]
+    ELSE [m EXCEPT !.mem = r.M, !.mout = m.mout \o Doubled(r.ret),
+                   !.drift = IF differs /\ m.drift = 0 THEN m.nupd ELSE m.drift,
+                   !.compared = IF differs \/ m.drift # 0 THEN m.compared ELSE m.compared + 1]
+\* the real monitor and the operational model returned the same step function (whatever the batching of equal samples)
+SameAsModel(m) ==
+  m.modelled /\ (m.emitted = <<>>) = (m.mout = <<>>) /\
+  (m.emitted = <<>> \/ (Monotone(m.emitted) /\ FirstT(m.emitted) = FirstT(m.mout) /\ LastT(m.emitted) = LastT(m.mout) /\
+                        \A t2 \in FirstT(m.emitted)..LastT(m.emitted) : StepAt(m.emitted, t2) = StepAt(m.mout, t2)))
 
 \* dense time: a bound denotes duration / default unit time units; the model needs whole cells (other cases skipped)
 IsWritten(obj) == "written" \in DOMAIN obj
@@ -267,9 +274,13 @@ Explained(c, fl) ==
   \* F-05c: the online counterpart: once/historically[a,b] with a > 0 (also inside since[a,b] and pastified
   \* eventually/always) produce their initial -inf/+inf segment only if the first time-stamp is 0; for a signal
   \* that begins later the output begins at t0 + a, and an operator on top sees no value before (the suite pins this)
+  \* Exact where the operational model applies: the returned step function must be the one DenseOn!UpdateC (which has the
+  \* same `first time-stamp = 0` special case) produces - any other wrong value in this class is not excused.
   (IF f.clause = "update.value"
       /\ \E i \in 1..Len(ms) : ms[i].phase = "online" /\ ms[i].inst.op # "null" /\ HasData(ms[i]) /\ D0(ms[i]) > 0
             /\ \E q \in SubF(ms[i].inst) : q.op \in Timed /\ q.a > 0
+      /\ \A j \in 1..Len(ms) : (ms[j].phase = "online" /\ ms[j].inst.op # "null" /\ OnlineCOK(ms[j].inst) /\ ms[j].cfg.M.sem = "standard")
+                                  => SameAsModel(ms[j])
    THEN {"F-05c"} ELSE {})
 
 Verdict(c, fl) ==
